@@ -1,6 +1,6 @@
 (* IdsProofs.v -- proofs for C06 / C05 (statements in model/IdsSpec.v). *)
 From Coq Require Import Lia Sorted.
-From Aqua Require Import Base Json Air Trace Handler Values Scalars Lens Exec RunExec ExecStreams CallSpec IdsSpec ExecInv ExecStreamsInv.
+From Aqua Require Import Base Json Air Trace Handler Values Scalars Lens Exec RunExec ExecStreams ExecCases CallSpec IdsSpec IdsCases ExecInv ExecStreamsInv.
 Open Scope N_scope.
 Open Scope list_scope.
 
@@ -777,4 +777,28 @@ Qed.
 Lemma C06_exec2_holds : C06_exec2_stmt.
 Proof.
   intros fuel i x. split; [apply (exec2_inv _ fresh_step_exec_invariant) | apply (exec2_inv _ results_step_exec_invariant)].
+Qed.
+
+(* ------------------------------------------------------------------------------------------ *)
+(* the Coq-side oracle (IdsCases.c06_oracle) against the theorem *)
+
+Lemma increasing_from_N_seq : forall n l, increasing_from l (N_seq (l + 1) n) = true.
+Proof.
+  induction n as [| n IH]; intro l; cbn [N_seq increasing_from]; [reflexivity |].
+  rewrite IH. replace (l <? l + 1) with true by (symmetry; apply N.ltb_lt; lia). reflexivity.
+Qed.
+
+Lemma last_N_seq_le : forall n s d b, d <= b -> s + N.of_nat n <= b + 1 -> last (N_seq s n) d <= b.
+Proof.
+  induction n as [| n IH]; intros s d b H1 H2; cbn [N_seq last]; [exact H1 |].
+  destruct n as [| m].
+  - cbn. lia.
+  - change (last (N_seq (s + 1) (S m)) d <= b). apply IH; lia.
+Qed.
+
+Lemma C06_oracle_sound_holds : C06_oracle_sound_stmt.
+Proof.
+  intros l ids lcid' H1 H2. remember (length ids) as n eqn:Hn. subst ids lcid'. split.
+  - apply increasing_from_N_seq.
+  - apply N.leb_le. apply last_N_seq_le; lia.
 Qed.
